@@ -125,6 +125,38 @@ class ShellService(object):
         pass
 
 
+class RawSyncService(object):
+    """Answers the first request of a sync: stream with the given raw bytes (any sequence of records, valid at that point or not)
+    and then says nothing more; a CLSE from the host is answered as usual."""
+
+    def __init__(self, reply, cuts=None):
+        self.reply = bytes(reply)
+        self.cuts = cuts
+        self.answered = False
+        self.records = []
+        self.out = []
+
+    def start(self, st):
+        pass
+
+    def on_write(self, st, payload):
+        if self.answered:
+            return
+        self.answered = True
+        b = self.reply
+        if not b:
+            return
+        pieces = [b]
+        if self.cuts:
+            pieces, last = [], 0
+            for c in sorted(set(x for x in self.cuts if 0 < x < len(b))):
+                pieces.append(b[last:c])
+                last = c
+            pieces.append(b[last:])
+        for p_ in pieces:
+            st.data.append(('WRTE', p_, st.nwr))
+
+
 class SyncFailPlan(object):
     """Where the sync service rejects: at ('SEND'|'RECV'), after DATA record k ('DATA', k), at 'DONE', or never."""
 
